@@ -178,6 +178,16 @@ func (ms *MessageStreamer) Go(ctx context.Context, conn StreamConnection) error 
 				if err := ms.doDelay(ctx, msg.Delay, time.Duration(msg.DelaySeconds*float64(time.Second))); err != nil {
 					return err
 				}
+				if msg.DelaySeconds <= 0 {
+					// a zero deadline is how a (gRPC) client nacks: the client no longer
+					// holds these, so they must stop counting against flow control
+					mu.Lock()
+					for _, id := range msg.Delay {
+						delete(pending, id)
+					}
+					tryWake()
+					mu.Unlock()
+				}
 			}
 		}
 	})
